@@ -140,6 +140,47 @@ def gen_pool(rng, names, n_rows, path_kind):
     }
 
 
+def gen_pool_real(rng, n_rows, itv):
+    """the same parameter dict for a window of the real polygon USDC/WETH (or ethereum WETH/oSQTH) minute history, loaded
+    with demeter's own loader; ranges are placed around the window's real tick path."""
+    from .. import realworlds as R
+
+    which = rng.choice(["polygon", "polygon", "ethereum"])
+    probe = R.RealUniWorld(rng, n=n_rows, which=which, start=0)  # loads (cached per process)
+    pool, full = R._load_uni(which, tuple(__import__("datetime").date.fromisoformat(x) for x in probe.info["span"]))
+    starts = [i for i, t in enumerate(full.index[: len(full.index) - n_rows + 1]) if (t.minute % itv == 0 if itv < 60 else t.minute == 0)]
+    start = rng.choice(starts)
+    w = R.RealUniWorld.__new__(R.RealUniWorld)
+    win = full.iloc[start:start + n_rows]
+    w.which, w.pool, w.t0, w.t1 = which, pool, pool.token0, pool.token1
+    w.token0_is_quote, w.spacing = True, pool.tick_spacing
+    w.raw = win.drop(columns=[c for c in R.STAT_COLS if c in win.columns]).copy()
+    w.index = list(w.raw.index.to_pydatetime())
+    w.ticks = [int(x) for x in w.raw["closeTick"]]
+    w.center = w.ticks[0]
+    w.info = {"real": which, "start": str(w.index[0]), "rows": n_rows}
+    spacing = pool.tick_spacing
+    lo_t, hi_t = min(w.ticks), max(w.ticks)
+    ranges = []
+    for _ in range(rng.choice([1, 1, 2, 3])):
+        mode = rng.random()
+        wn = rng.choice([1, 1, 2, 5, 20])
+        if mode < 0.5:  # a bound inside the travelled span, so that real bars cross it
+            b = rng.randint(lo_t, hi_t) // spacing * spacing
+            lower = b if rng.random() < 0.5 else b - wn * spacing
+        else:
+            lower = w.center // spacing * spacing - spacing * rng.randint(0, wn)
+        r = (lower, lower + wn * spacing)
+        if r not in ranges:
+            ranges.append(r)
+    fee = 0.05 if which == "polygon" else 0.3
+    return {
+        "w": w, "fee": fee, "spacing": spacing, "dec": (pool.token0.decimal, pool.token1.decimal), "q0": True, "center": w.center,
+        "ranges": ranges, "first_amounts": (amount(rng), amount(rng)), "dtype": "real/" + str(w.raw["closeTick"].dtype),
+        "zero_pool": False, "path": "real-" + which,
+    }
+
+
 OP_KINDS = (
     ["add"] * 5 + ["remove"] * 3 + ["remove_keep"] * 2 + ["collect"] * 2 + ["collect_part", "buy", "sell", "buy", "sell"]
     + ["transfer_out", "transfer_in", "add_value", "add_price", "remove_all"]
@@ -531,7 +572,13 @@ def one_case(mon, rng, c, tier):
     n_rows = nbars * itv
     path_kind = rng.choice(["anchors"] * 11 + ["jump"] * 3 + ["walk"] * 2 + ["flat"] * 2 + ["calm"] * 2)
     two = rng.random() < 0.2
-    pools = [gen_pool(rng, ("USDC", "WETH"), n_rows, path_kind)]
+    real = rng.random() < 0.12
+    if real:
+        two = False
+        path_kind = "real"
+        pools = [gen_pool_real(rng, n_rows, itv)]
+    else:
+        pools = [gen_pool(rng, ("USDC", "WETH"), n_rows, path_kind)]
     if two:
         pools.append(gen_pool(rng, ("DAI", "WBTC"), n_rows, rng.choice(["anchors", "jump", "walk"])))
     density = rng.choice([0.0, 0.15, 0.35, 0.35, 0.6])
